@@ -44,7 +44,7 @@ func Main(tier, replay string) {
 	for _, f := range []fam.Family{sig, typ, lay, sec, gen} {
 		byID := map[string]scen.Case{}
 		var packed, singles []scen.Case
-		for i, c := range f.Cases {
+		for _, c := range f.Cases {
 			byID[c.ID] = c
 			if replayID != "" {
 				if c.ID == replayID {
@@ -63,7 +63,7 @@ func Main(tier, replay string) {
 				continue
 			}
 			packed = append(packed, c)
-			if tier == "thorough" || i%15 == 0 {
+			if tier == "thorough" || core.Pick(c.ID, 15) {
 				singles = append(singles, c)
 			}
 		}
